@@ -22,7 +22,7 @@ def make_cases(rng, n, schema_share=0.25):
             g = gen.gen_schema_graph(rng, inst_prop=ip)
         else:
             g = gen.gen_graph(rng, inst_prop=ip)
-        cases.append((g, gen.gen_cfg(rng, g, inst_prop=ip)))
+        cases.append((g, gen.gen_cfg(rng, g, inst_prop=ip, allow_or=True)))
     return cases
 
 
